@@ -1,1 +1,250 @@
-From Coq Require Import ZArith.
+(* C11 — soundness of Rational::ratrecon and of the RationalReconstruction wrappers, for every (f, m, k). *)
+From Coq Require Import ZArith Lia Bool Znumtheory.
+From C11 Require Import Model ProofsLoop.
+Local Open Scope Z_scope.
+Ltac Zify.zify_post_hook ::= Z.div_mod_to_equations.
+
+(* what a reported success must satisfy (the property text) *)
+Definition sound (f m k : Z) (fr : bool) (r : res) : Prop :=
+  let '(ok, n, d) := r in
+  ok = true -> cong m n (d * f) /\ Z.abs n < k /\ 0 < d /\ (fr = true -> Z.gcd n d = 1).
+
+(* ---------------------------------------------------------------- the initial residue *)
+Lemma init_r1_spec f m : 0 < m -> 0 <= init_r1 f m /\ cong m (init_r1 f m) f.
+Proof.
+  intros Hm. unfold init_r1. destruct (Z.ltb_spec f 0) as [N|N].
+  - rewrite Z.abs_eq by lia. split.
+    + apply Z.mod_pos_bound; lia.
+    + exists (- (f / m)). rewrite Z.mod_eq by lia. lia.
+  - split; [lia|apply cong_refl].
+Qed.
+
+Lemma init_r1_lt f m : 0 < m -> f < 0 -> init_r1 f m < m.
+Proof.
+  intros Hm N. unfold init_r1. destruct (Z.ltb_spec f 0); [|lia].
+  rewrite Z.abs_eq by lia. apply Z.mod_pos_bound; lia.
+Qed.
+
+Lemma cong_chg m a t F f : cong m a (t * F) -> cong m F f -> cong m a (t * f).
+Proof. intros H1 H2. eapply cong_trans; [exact H1|]. apply cong_mul_l; exact H2. Qed.
+
+(* ---------------------------------------------------------------- the sign normalisation *)
+Lemma norm_cong m r t f : cong m r (t * f) -> cong m (norm_num r t) (norm_den t * f).
+Proof.
+  intros H. unfold norm_num, norm_den. destruct (Z.ltb_spec t 0); [|exact H].
+  replace (- t * f) with (- (t * f)) by lia. apply cong_neg; exact H.
+Qed.
+Lemma norm_num_abs r t : 0 <= r -> Z.abs (norm_num r t) = r.
+Proof. intros H. unfold norm_num. destruct (t <? 0); lia. Qed.
+Lemma norm_den_abs t : norm_den t = Z.abs t.
+Proof. unfold norm_den. destruct (Z.ltb_spec t 0); lia. Qed.
+Lemma norm_num_zero r t : norm_num r t = 0 -> r = 0.
+Proof. unfold norm_num. destruct (t <? 0); lia. Qed.
+
+(* the branch  `num == 0 && f % m == 0`  with gcd(num,den) != 1 is dead: if m | F the loop ends in (m, _, 0, +-1) *)
+Lemma zero_residue_den F m k r0 t0 t1 :
+  0 < m -> 1 <= k -> Inv F m k r0 t0 0 t1 -> cong m F 0 -> Z.abs t1 = 1.
+Proof.
+  intros Hm Hk [c0 c1 det sgn hr1 hr0 ht0 ht1] [c HF].
+  destruct c0 as [c' H0].
+  assert (Hr0 : r0 = (c' + t0 * c) * m) by nia.
+  set (e := c' + t0 * c) in *.
+  assert (Hd : e * m * Z.abs t1 = m) by (rewrite <- Hr0; lia).
+  assert (He : e * Z.abs t1 = 1) by nia.
+  assert (0 < e) by nia.
+  nia.
+Qed.
+
+(* ---------------------------------------------------------------- lines 78-184 *)
+Lemma finish_sound F f m k fr r0 t0 r1 t1 :
+  0 < m -> 1 <= k <= m -> cong m F f ->
+  Inv F m k r0 t0 r1 t1 -> r1 < k ->
+  sound f m k fr (finish f m k fr (r0, t0, r1, t1)).
+Proof.
+  intros Hm Hk HF HI Hlt.
+  pose proof HI as [c0 c1 det sgn hr1 hr0 ht0 ht1].
+  assert (Ht1 : t1 <> 0) by (intros E; destruct (ht1 E); lia).
+  assert (C1 : cong m (norm_num r1 t1) (norm_den t1 * f)) by (apply norm_cong; eapply cong_chg; eassumption).
+  assert (A1 : Z.abs (norm_num r1 t1) < k) by (rewrite norm_num_abs; lia).
+  assert (D1 : 0 < norm_den t1) by (rewrite norm_den_abs; lia).
+  unfold finish.
+  destruct fr; [|cbn; intros _; repeat split; (assumption || discriminate)].
+  destruct (Z.eqb_spec (Z.gcd (norm_num r1 t1) (norm_den t1)) 1) as [G|G]; cbn [negb].
+  { cbn. intros _. repeat split; try assumption. intros _; exact G. }
+  destruct (Z.eqb_spec (norm_num r1 t1) 0) as [Z0|Z0].
+  { (* num = 0 *)
+    destruct (Z.eqb_spec (Z.rem f m) 0) as [R|R]; [|cbn; discriminate].
+    exfalso. apply G.
+    apply norm_num_zero in Z0. subst r1.
+    assert (HF0 : cong m F 0).
+    { eapply cong_trans; [exact HF|]. exists (Z.quot f m). pose proof (Z.quot_rem' f m). lia. }
+    pose proof (zero_residue_den F m k r0 t0 t1 Hm ltac:(lia) HI HF0) as E.
+    rewrite norm_den_abs, E. unfold norm_num. destruct (t1 <? 0); reflexivity. }
+  (* second candidate *)
+  assert (Hr1 : 0 < r1) by (unfold norm_num in Z0; destruct (t1 <? 0); lia).
+  assert (Hq : Z.quot (r0 + r1 - k) r1 = (r0 + r1 - k) / r1) by (apply Z.quot_div_nonneg; lia).
+  rewrite Hq. set (q := (r0 + r1 - k) / r1).
+  assert (Hq1 : 1 <= q) by (apply Z.div_le_lower_bound; lia).
+  assert (Hdm : r0 + r1 - k = r1 * q + (r0 + r1 - k) mod r1) by (apply Z.div_mod; lia).
+  assert (Hmb : 0 <= (r0 + r1 - k) mod r1 < r1) by (apply Z.mod_pos_bound; lia).
+  assert (Hr0' : 0 < r0 - q * r1 < k) by lia.
+  assert (Ht0' : Z.abs (t0 - q * t1) = Z.abs t0 + q * Z.abs t1).
+  { replace (q * t1) with (t1 * q) by lia. apply abs_sub_opp; lia. }
+  destruct (Z.eqb_spec (Z.gcd (norm_num (r0 - q * r1) (t0 - q * t1)) (norm_den (t0 - q * t1))) 1) as [G'|G'];
+    cbn [negb]; [|cbn; discriminate].
+  cbn. intros _. repeat split.
+  - apply norm_cong. eapply cong_chg; [|exact HF].
+    replace (q * r1) with (r1 * q) by lia. replace (q * t1) with (t1 * q) by lia.
+    eapply cong_trans; [apply cong_sub_mul; [exact c0|exact c1]|]. exists 0; lia.
+  - rewrite norm_num_abs; lia.
+  - rewrite norm_den_abs, Ht0'. nia.
+  - intros _; exact G'.
+Qed.
+
+(* ---------------------------------------------------------------- ratrecon *)
+Lemma loop_stop fuel k r0 t0 r1 t1 : r1 < k -> loop fuel k r0 t0 r1 t1 = Some (r0, t0, r1, t1).
+Proof. intros H. destruct fuel; cbn [loop]; destruct (Z.geb_spec r1 k); (lia || reflexivity). Qed.
+
+Lemma finish_trivial f m k fr r : finish f m k fr (m, 0, r, 1) = (true, r, 1).
+Proof.
+  unfold finish, norm_num, norm_den. cbn [Z.ltb Z.compare].
+  rewrite Z.gcd_1_r. cbn. destruct fr; reflexivity.
+Qed.
+
+Definition Ratrecon_total := forall f m k fr, 2 <= m -> 1 <= k -> ratrecon f m k fr <> None.
+Lemma ratrecon_total : Ratrecon_total.
+Proof.
+  intros f m k fr Hm Hk. unfold ratrecon, ratrecon_fuel.
+  destruct (init_r1_spec f m ltac:(lia)) as [H0 _].
+  pose proof (fuel_enough m k (init_r1 f m) Hm Hk H0) as E.
+  destruct (loop (fuel_of m) k m 0 (init_r1 f m) 1); congruence.
+Qed.
+
+(* soundness for every residue f (negative, >= m), every modulus m >= 1 and every bound 1 <= k <= m;
+   and also for bounds k > m as long as the (reduced) residue is below k: the widening loops produce those *)
+Definition Ratrecon_sound := forall f m k fr r, 1 <= m -> 1 <= k -> (k <= m \/ 0 <= f < k \/ f < 0) ->
+  ratrecon f m k fr = Some r -> sound f m k fr r.
+Lemma ratrecon_sound : Ratrecon_sound.
+Proof.
+  intros f m k fr r Hm Hk Hdom. unfold ratrecon, ratrecon_fuel.
+  destruct (init_r1_spec f m ltac:(lia)) as [H0 HF].
+  destruct (Z.le_gt_cases k m) as [Le|Gt].
+  - destruct (loop (fuel_of m) k m 0 (init_r1 f m) 1) as [s|] eqn:E; [|discriminate].
+    intros R; inversion R; subst r; clear R.
+    pose proof (loop_inv (init_r1 f m) m k Hk _ _ _ _ _ _ (Inv_init _ m k H0 ltac:(lia)) E) as HI.
+    destruct s as [[[r0 t0] r1] t1]. destruct HI as [HI Hlt].
+    eapply finish_sound; eauto; lia.
+  - assert (Hs : init_r1 f m < k).
+    { destruct Hdom as [?|[?|N]]; [lia| |pose proof (init_r1_lt f m ltac:(lia) N); lia].
+      unfold init_r1. destruct (Z.ltb_spec f 0); lia. }
+    rewrite loop_stop by exact Hs. rewrite finish_trivial.
+    intros R; inversion R; subst r; clear R. unfold sound. intros _.
+    split; [rewrite Z.mul_1_l; exact HF|]. split; [lia|]. split; [lia|]. intros _; apply Z.gcd_1_r.
+Qed.
+
+(* ---------------------------------------------------------------- RationalReconstruction(a,b,x,m): k = sqrt m *)
+Lemma sqrt_range m : 1 <= m -> 1 <= Z.sqrt m <= m.
+Proof.
+  intros H. pose proof (Z.sqrt_spec m ltac:(lia)) as S. pose proof (Z.sqrt_nonneg m) as N.
+  unfold Z.succ in S. set (s := Z.sqrt m) in *.
+  assert (1 <= s) by (destruct (Z.eq_dec s 0) as [E|E]; [rewrite E in S; lia|lia]).
+  split; [lia|nia].
+Qed.
+
+Definition RR4_sound := forall f m r, 1 <= m -> RR4 f m = Some r -> sound f m (Z.sqrt m) true r.
+Lemma rr4_sound : RR4_sound.
+Proof.
+  intros f m r Hm. unfold RR4. pose proof (sqrt_range m Hm).
+  apply ratrecon_sound; lia.
+Qed.
+
+(* ---------------------------------------------------------------- RationalReconstruction(a,b,x,m,a_bound,b_bound) *)
+Definition rr6_k (x a_bound b_bound : Z) : Z :=
+  let bound := Z.quot x b_bound in if bound >? a_bound then bound else a_bound.
+
+Definition RR6_sound := forall x m ab bb ok n d, 1 <= m -> 1 <= rr6_k x ab bb <= m ->
+  RR6 x m ab bb = Some (ok, n, d) -> ok = true ->
+  cong m n (d * x) /\ Z.abs n < rr6_k x ab bb /\ 0 < d <= bb /\ Z.gcd n d = 1.
+Lemma rr6_sound : RR6_sound.
+Proof.
+  intros x m ab bb ok n d Hm Hk. unfold RR6. fold (rr6_k x ab bb).
+  destruct (ratrecon x m (rr6_k x ab bb) true) as [[[ok' a] b]|] eqn:E; [|discriminate].
+  intros R; inversion R; subst; clear R. intros Hok.
+  apply andb_true_iff in Hok. destruct Hok as [Hok Hb]. apply Z.leb_le in Hb.
+  pose proof (ratrecon_sound x m (rr6_k x ab bb) true _ Hm (proj1 Hk) (or_introl (proj2 Hk)) E) as S. cbn in S.
+  destruct (S Hok) as (C & A & D & G). repeat split; auto; lia.
+Qed.
+
+(* ---------------------------------------------------------------- RationalReconstruction(a,b,f,m,k,forcereduce,recursive) *)
+Lemma normalise_spec f m : 1 <= m -> 0 <= normalise f m <= m /\ cong m (normalise f m) f.
+Proof.
+  intros Hm. unfold normalise.
+  destruct (Z.ltb_spec f 0) as [N|N].
+  - destruct (Z.gtb_spec (- f) m) as [G|G].
+    + assert (B : - m < Z.rem f m <= 0).
+      { replace f with (- - f) by lia. rewrite Z.rem_opp_l by lia.
+        pose proof (Z.rem_bound_pos (- f) m ltac:(lia) ltac:(lia)). lia. }
+      pose proof (Z.quot_rem' f m) as QR.
+      destruct (Z.ltb_spec (Z.rem f m) 0).
+      * split; [lia|]. exists (1 - Z.quot f m). lia.
+      * split; [lia|]. exists (- Z.quot f m). lia.
+    + destruct (Z.ltb_spec f 0); [|lia]. split; [lia|]. exists 1; lia.
+  - destruct (Z.gtb_spec f m) as [G|G].
+    + pose proof (Z.rem_bound_pos f m ltac:(lia) ltac:(lia)) as B.
+      pose proof (Z.quot_rem' f m) as QR.
+      split; [lia|]. exists (- Z.quot f m). lia.
+    + split; [lia|apply cong_refl].
+Qed.
+
+(* a success obtained with some bound k' between lo and the residue *)
+Definition good (f x m lo : Z) (fr : bool) (r : res) : Prop :=
+  let '(ok, n, d) := r in
+  ok = true -> cong m n (d * x) /\ 0 < d /\ (fr = true -> Z.gcd n d = 1) /\
+               exists k', (k' = lo \/ lo < k' < f) /\ Z.abs n < k'.
+
+Lemma widen_good f x m lo fr : 1 <= m -> 1 <= lo -> 0 <= x <= m ->
+  forall fuel newk cur r, lo < newk -> good f x m lo fr cur ->
+  widen fuel x m f newk fr cur = Some r -> good f x m lo fr r.
+Proof.
+  intros Hm Hlo Hx fuel; induction fuel as [|n IH]; intros newk cur r Hn Hc; cbn [widen];
+    destruct cur as [[ok a] b].
+  - destruct (negb ok && (newk <? f)); [discriminate|]. intros R; inversion R; subst; exact Hc.
+  - destruct (negb ok && (newk <? f)) eqn:Cnd; [|intros R; inversion R; subst; exact Hc].
+    apply andb_true_iff in Cnd. destruct Cnd as [_ Hlt]. apply Z.ltb_lt in Hlt.
+    destruct (ratrecon x m newk fr) as [r'|] eqn:E; [|discriminate].
+    apply IH; [lia|].
+    assert (Hd : newk <= m \/ 0 <= x < newk \/ x < 0) by lia.
+    pose proof (ratrecon_sound x m newk fr r' Hm ltac:(lia) Hd E) as S.
+    destruct r' as [[ok' a'] b']. cbn in S |- *. intros Hok. destruct (S Hok) as (C & A & D & G).
+    repeat split; auto. exists newk; split; [right; lia|exact A].
+Qed.
+
+Definition RR7_sound := forall f m k fr rc ok n d, 1 <= m -> 1 <= k <= m ->
+  RR7 f m k fr rc = Some (ok, n, d) -> ok = true ->
+  cong m n (d * f) /\ 0 < d /\ (fr = true -> Z.gcd n d = 1) /\
+  exists k', (k' = k \/ (rc = true /\ k < k' < f)) /\ Z.abs n < k'.
+Lemma rr7_sound : RR7_sound.
+Proof.
+  intros f m k fr rc ok n d Hm Hk. unfold RR7.
+  destruct (normalise_spec f m Hm) as [Hx HC]. set (x := normalise f m) in *.
+  destruct (Z.eqb_spec x 0) as [Z0|Z0].
+  - intros R; inversion R; subst ok n d; clear R. intros _.
+    split; [rewrite Z0 in HC; rewrite Z.mul_1_l; exact HC|]. split; [lia|].
+    split; [intros _; reflexivity|]. exists k; split; [left; reflexivity|cbn; lia].
+  - destruct (ratrecon x m k fr) as [r0|] eqn:E; [|discriminate].
+    pose proof (ratrecon_sound x m k fr r0 Hm (proj1 Hk) (or_introl (proj2 Hk)) E) as S.
+    destruct rc.
+    + intros W Hok.
+      assert (G0 : good f x m k fr r0).
+      { destruct r0 as [[ok0 a0] b0]. cbn in S |- *. intros Hok0. destruct (S Hok0) as (C & A & D & G).
+        repeat split; auto. exists k; split; [left; reflexivity|exact A]. }
+      pose proof (widen_good f x m k fr Hm (proj1 Hk) Hx (widen_fuel f) (k + 1) r0 (ok, n, d) ltac:(lia) G0 W) as Gr.
+      cbn in Gr. destruct (Gr Hok) as (C & D & G & k' & Hk' & A).
+      repeat split; auto.
+      * eapply cong_chg; eassumption.
+      * exists k'; split; [|exact A]. destruct Hk' as [->|Hk']; [left; reflexivity|right; split; [reflexivity|lia]].
+    + intros R; inversion R; subst r0; clear R. intros Hok. cbn in S.
+      destruct (S Hok) as (C & A & D & G). repeat split; auto.
+      * eapply cong_chg; eassumption.
+      * exists k; split; [left; reflexivity|exact A].
+Qed.
